@@ -88,11 +88,35 @@ def compare(parts, impl, model):
         return ["outcome impl=%s model=%s" % (impl[0], model[0])]
     d = parse(impl[1])
     keys_i = sorted(k for k in d["keys"].split(",") if k)
-    rows = sqcmp.parse_obs(model[1])[-1] if model[1] else []
+    segs = sqcmp.parse_obs(model[1]) if model[1] else [[]]
+    rows = segs[-1]
     keys_m = sorted(r["key"] for r in rows)
+    out = []
     if keys_i != keys_m:
-        return ["table after the session: CLI shows %s, model %s" % (keys_i, keys_m)]
-    return []
+        out.append("table after the session: CLI shows %s, model %s" % (keys_i, keys_m))
+    # the retry schedule of the model's loop against the observed spacing of connection attempts: after an attempt that the
+    # model follows with a 5 s pause the next connection comes after about 5 s, after a clean close at once.  Only pairs of
+    # directly consecutive accepted connections are judged (a refused attempt in between is the oracle's business).
+    pauses = []
+    if len(segs) > 1 and segs[0] and "pauses" in segs[0][0]:
+        pauses = [int(x) for x in segs[0][0]["pauses"].split(";") if x]
+    events = [int(s.split(":", 1)[0]) for s in parts[3].split(";") if s]
+    gaps = [float(x) for x in d["gaps"].split(",") if x]
+    if len(pauses) == len(events):
+        gi = 0
+        for k, e in enumerate(events):
+            if e == 3:
+                continue
+            if k > 0 and events[k - 1] != 3 and gi < len(gaps):
+                g = gaps[gi]
+                if pauses[k - 1] == 5 and not (3.5 <= g <= 9.0):
+                    out.append("retry schedule: the model's loop pauses 5 s after attempt %d (event type %d), observed %.2f s" % (k - 1, events[k - 1], g))
+                if pauses[k - 1] == 0 and g > 2.5:
+                    out.append("retry schedule: the model's loop reconnects at once after attempt %d (clean close), observed %.2f s" % (k - 1, g))
+            gi += 1
+    elif events:
+        out.append("model schedule has %d pauses for %d attempts" % (len(pauses), len(events)))
+    return out
 
 
 def oracle(parts, outcome, obs):
@@ -142,7 +166,7 @@ def oracle(parts, outcome, obs):
 
 
 CLAIM = {
-    "text": "Theorems C18_table_kept / C18_never_stops (Coq, closed) about the LOGIC of the connection loop: for every sequence of connections (each delivering an arbitrary byte string, possibly empty or ending in a partial line) the loop threads one table through total read_lines calls, so it never panics or terminates and the final table is the fold of the delivered streams -- rows learned before an interruption are kept, a partial last line is just a malformed line. Tied to the code by the built CLI against a scripted loopback peer: refused attempts, accept+close, frames+close, partial line + RST (SO_LINGER 0), junk bytes, then a healthy connection carrying a sentinel aircraft; observed: process liveness, number and spacing of connection attempts (about 5 s after a refusal), final table vs the model and the oracle.",
+    "text": "Theorems C18_table_kept / C18_never_stops (Coq, closed) about the LOGIC of the connection loop: for every sequence of connections (each delivering an arbitrary byte string, possibly empty or ending in a partial line) the loop threads one table through total read_lines calls, so it never panics or terminates and the final table is the fold of the delivered streams -- rows learned before an interruption are kept, a partial last line is just a malformed line; the loop WITH ITS RETRY PAUSES (Model/Display.v run_tcp_loop: attempts refused / delivered-then-closed / delivered-then-reset) never stops, keeps the table, pauses 5 s after exactly the failed attempts and resumes decoding on the next healthy connection (C18_loop_never_stops, C18_loop_table, C18_retry_schedule, C18_retry_after_failure, C18_resumes). Tied to the code by the built CLI against a scripted loopback peer: refused attempts, accept+close, frames+close, partial line + RST (SO_LINGER 0), junk bytes, then a healthy connection carrying a sentinel aircraft; observed: process liveness, number and spacing of connection attempts (about 5 s after a refusal), final table vs the model and the oracle, and the spacing of consecutive connections vs the model's retry schedule (about 5 s after a reset, at once after a clean close); also a connection reset after more than 5 s of uptime and sessions with the downlink log (-D) switched on.",
     "note": "PARTIAL by nature: real sockets, kernel reset timing, DNS and connect() blocking are not modelled, only exercised; the theorem covers the loop's bookkeeping.",
     "technique": "Coq proof: totality + fold structure of the connection loop model; scripted-peer differential runs on the CLI",
 }
